@@ -35,7 +35,7 @@ struct C03 : Property
 		return {"cut.inside_unicode_escape", "cut.between_surrogate_halves", "cut.after_exponent_e", "cut.after_minus", "cut.after_dot", "cut.inside_literal",
 		        "cut.inside_block_comment", "cut.inside_line_comment", "cut.after_comment_slash", "cut.inside_member_name", "cut.inside_string", "cut.after_backslash",
 		        "cut.inside_multibyte_char", "cut.at_depth_limit_minus_1", "resume.after_success_same_parser", "zero_length_chunk", "stream.multiple_documents",
-		        "outcome.error_after_continue", "outcome.success_after_continue", "nul_terminated_last_chunk"};
+		        "outcome.error_after_continue", "outcome.success_after_continue", "nul_terminated_last_chunk", "stream_oracle.applied"};
 	}
 	std::map<std::string, int64_t> cfg_defaults() const override { return {{"flags", 0}, {"depth", 32}}; }
 
@@ -127,8 +127,57 @@ struct C03 : Property
 		return e.cache[key] = oneshot(e.S->substr(start, len), e.flags, e.depth);
 	}
 
-	void deliver(Env &e, std::vector<size_t> cuts, bool last_z, RunCtx &ctx, size_t sched_no)
+	// what a caller streaming documents out of the byte stream ends up with: the values in order and the fatal error, if any
+	struct StreamObs
 	{
+		std::vector<std::string> values;
+		int terminal = -1;
+		bool pending = false; // the input ended while the parser was asking for more
+		// Equivalent for a caller?  Without errors: the same values.  When the stream ends in a fatal error the error may be noticed while
+		// json-c looks at the byte after a complete value (UTF-8 validation, trailing garbage): delivered in one call that value is then
+		// not handed out, delivered in two it is - by design.  So with errors on both sides one value of slack at the end is accepted;
+		// an error on one side only is never equivalent.
+		bool equivalent(const StreamObs &o0) const
+		{
+			// "unexpected end of data" is what json-c reports for a remainder that holds nothing but white space, comments or the
+			// terminator after an early success: for the caller that is the end of the stream, like a pending "continue"
+			StreamObs me = *this, o = o0;
+			for (StreamObs *x : {&me, &o})
+				if (x->terminal == json_tokener_error_parse_eof)
+				{
+					x->terminal = -1;
+					x->pending = true;
+				}
+			return me.equivalent_norm(o);
+		}
+		bool equivalent_norm(const StreamObs &o) const
+		{
+			if ((terminal < 0) != (o.terminal < 0))
+				return false;
+			// likewise a value can be held back while json-c is still inside an unfinished trailing comment / whitespace run: if the
+			// input ends there ("continue" pending) one piece may have one value less than a delivery that was cut right after the value
+			if (terminal < 0 && !pending && !o.pending)
+				return values == o.values;
+			const std::vector<std::string> &a = values.size() <= o.values.size() ? values : o.values, &b = values.size() <= o.values.size() ? o.values : values;
+			if (b.size() - a.size() > 1)
+				return false;
+			for (size_t i = 0; i < a.size(); i++)
+				if (a[i] != b[i])
+					return false;
+			return true;
+		}
+		std::string str() const
+		{
+			std::string s = "[";
+			for (auto &v : values)
+				s += (v.size() > 40 ? v.substr(0, 40) + ".." : v) + " ";
+			return s + "] " + (terminal < 0 ? std::string("no error") : std::string("error '") + json_tokener_error_desc((enum json_tokener_error)terminal) + "'");
+		}
+	};
+
+	StreamObs deliver(Env &e, std::vector<size_t> cuts, bool last_z, RunCtx &ctx, size_t sched_no)
+	{
+		StreamObs obs;
 		const std::string &S = *e.S;
 		size_t n = S.size();
 		for (auto &c : cuts)
@@ -225,14 +274,17 @@ struct C03 : Property
 						ctx.probe("cut.inside_multibyte_char");
 				}
 				prev_continue = true;
+				obs.pending = true;
 				cur = b;
 				if (b == n && ci >= cuts.size())
 					break;
 				continue;
 			}
 			prev_continue = false;
+			obs.pending = false;
 			if (got.err == json_tokener_success)
 			{
+				obs.values.push_back(got.dump);
 				ctx.cover(std::string("success|f") + std::to_string(e.flags) + (docstart ? "|later-doc" : "|first-doc"));
 				size_t newstart = cur + got.end;
 				if (newstart == cur && chunk.empty())
@@ -259,13 +311,15 @@ struct C03 : Property
 				continue;
 			}
 			// error: the property says nothing about what follows
+			obs.terminal = got.err;
 			ctx.cover("error-" + std::to_string(got.err) + "|f" + std::to_string(e.flags));
 			break;
 		}
 		LIBV(json_tokener_free(tok));
 		if (!g_alloc.live.empty())
-			ctx.fail("C03:leak@" + g_alloc.site_of(g_alloc.live.begin()->second), "after json_tokener_free %zu allocation(s) remain:%s", g_alloc.live.size(),
+			ctx.fail("C03:leak@" + g_alloc.first_live_site(), "after json_tokener_free %zu allocation(s) remain:%s", g_alloc.live.size(),
 			         g_alloc.describe_live().c_str());
+		return obs;
 	}
 
 	void run(const Plan &p, RunCtx &ctx) override
@@ -282,21 +336,45 @@ struct C03 : Property
 			e.depth = 1;
 		e.lex = &lex;
 		ctx.log("stream %zu bytes flags=0x%x depth=%d", S.size(), e.flags, e.depth);
+		// Stream-level consequence of the property: the documents a caller obtains by resuming at the reported end positions do not
+		// depend on the chunking.  Not asserted in strict mode without ALLOW_TRAILING_CHARS, where json-c by design rejects a value
+		// only if the trailing bytes happen to arrive in the same call.
+		// Nor with VALIDATE_UTF8: the validation state is per call by design (a chunk ending inside a multi-byte character is an error,
+		// which the test suite pins), so there chunking legitimately matters.
+		bool stream_oracle = !((e.flags & JSON_TOKENER_STRICT) && !(e.flags & JSON_TOKENER_ALLOW_TRAILING_CHARS)) && !(e.flags & JSON_TOKENER_VALIDATE_UTF8);
+		StreamObs whole = deliver(e, {}, false, ctx, 0);
+		// only streams that are clean when delivered in one piece: with trailing garbage json-c's answer (which value is still handed out,
+		// which error code wins) legitimately depends on what arrives together, see DESIGN.md 5.1
+		if (whole.terminal >= 0 && whole.terminal != json_tokener_error_parse_eof)
+			stream_oracle = false;
+		if (stream_oracle)
+			ctx.probe("stream_oracle.applied");
 		for (size_t i = 1; i < p.ops.size(); i++)
 		{
 			const Op &op = p.ops[i];
 			std::vector<size_t> cuts;
+			StreamObs got;
 			if (op.kind == "sched" || op.kind == "sched_z")
 			{
 				for (auto v : op.a)
 					cuts.push_back((size_t)(v < 0 ? -v : v));
-				deliver(e, cuts, op.kind == "sched_z", ctx, i);
+				got = deliver(e, cuts, op.kind == "sched_z", ctx, i);
 			}
 			else if (op.kind == "bytewise")
 			{
 				for (size_t k = 1; k < S.size(); k++)
 					cuts.push_back(k);
-				deliver(e, cuts, false, ctx, i);
+				got = deliver(e, cuts, false, ctx, i);
+			}
+			else
+				continue;
+			if (stream_oracle && !got.equivalent(whole))
+			{
+				std::string cs;
+				for (auto c : cuts)
+					cs += std::to_string(c % (S.size() + 1)) + " ";
+				ctx.fail("C03:document-stream-depends-on-chunking", "stream %s flags=0x%x depth=%d: cut at [%s] the caller obtains %s ; delivered in one piece: %s", printable(S, 120).c_str(),
+				         e.flags, e.depth, cs.c_str(), got.str().c_str(), whole.str().c_str());
 			}
 		}
 		// depth probe
